@@ -114,6 +114,30 @@ fn u_space(tier: Tier) -> Vec<Universe> {
         u.name.push_str("/user");
         out.push(u);
     }
+    // a category whose name differs from SPACE only in case ("Space", without characters) declared
+    // BEFORE the real SPACE category: names are case-sensitive, the real one must be the one skipped
+    let n = out.len();
+    for i in (0..n).step_by(7) {
+        let mut u = out[i].clone();
+        let real = u.dict.cats[1].clone();
+        u.dict.cats[1].name = "Space".into();
+        u.dict.cats.push(real);
+        let sid = u.dict.cats.len() - 1;
+        for r in u.dict.ranges.iter_mut() {
+            for k in r.2.iter_mut() {
+                if *k == 1 {
+                    *k = sid;
+                }
+            }
+        }
+        for r in u.dict.unk.iter_mut() {
+            if r.cat == 1 {
+                r.cat = sid;
+            }
+        }
+        u.name.push_str("/lookalike-Space-before-SPACE");
+        out.push(u);
+    }
     // char.def with DEFAULT defined after SPACE / at the end (same ids, different line order)
     let n = out.len();
     for i in (0..n).step_by(5) {
@@ -318,10 +342,10 @@ pub fn run(tier: Tier) -> i32 {
             }
         }
     });
-    // ignore_space on a dictionary without SPACE -> Err
-    {
+    // ignore_space on a dictionary without SPACE -> Err (category names are case-sensitive)
+    for other in ["BLANK", "space", "Space", "sPACE", "SPACES", "SPAC"] {
         let mut u = us[0].clone();
-        u.dict.cats[1].name = "BLANK".into();
+        u.dict.cats[1].name = other.into();
         let (d, _) = u.build().unwrap();
         st.states += 1;
         st.transitions += 1;
